@@ -120,6 +120,9 @@ SCENARIO sc_prt_parse() { Bytes in = prt_image(); Stream::MemoryReader r(in.data
 SCENARIO sc_vol(bool reversed, bool dotslash) { std::string d = "vin"; spit(d + "/b.txt", "BBBBB"); spit(d + "/A_.x", "12"); spit(d + "/sub/ab", ""); spit(d + "/sub/Zz9", std::string(131073, 'q')); std::string pre = dotslash ? "./" : "";
 	std::vector<std::string> in{pre + d + "/b.txt", pre + d + "/A_.x", pre + d + "/sub/ab", pre + d + "/sub/Zz9"}; if (reversed) std::reverse(in.begin(), in.end()); std::string out = "o.vol"; fs::remove(out); Archive::VolFile::CreateArchive(out, in); observe("vol.create", slurp(out));
 	Archive::VolFile v(out); observe("vol.listing", dump(v)); v.ExtractFile(2, "ex.bin"); observe("vol.extract", slurp("ex.bin")); auto st = v.OpenStream(3); Bytes sb(st->Length()); st->Read(sb.data(), sb.size()); observe("vol.stream", sb); }
+// an odd member count: the index table (14 bytes per entry) then ends off a 4-byte boundary and is followed by alignment padding
+SCENARIO sc_vol_odd(int count, bool reversed) { std::string d = "vodd"; std::vector<std::string> in; for (int i = 0; i < count; ++i) { std::string p = d + "/m" + std::to_string(i) + (i % 2 ? ".TXT" : ".b"); spit(p, std::string((std::size_t)(i * 3 % 7), (char)('a' + i))); in.push_back(p); }
+	if (reversed) std::reverse(in.begin(), in.end()); std::string out = "odd.vol"; fs::remove(out); Archive::VolFile::CreateArchive(out, in); observe("vol.odd" + std::to_string(count) + ".create", slurp(out)); Archive::VolFile v(out); observe("vol.odd" + std::to_string(count) + ".listing", dump(v)); }
 SCENARIO sc_clm(bool reversed) { std::string d = "cin"; spit(d + "/t1.wav", wav("AAAA", false)); spit(d + "/T2.wav", wav("BBBBBB", true)); spit(d + "/t_3.wav", wav("", false)); std::vector<std::string> in{d + "/t1.wav", d + "/T2.wav", d + "/t_3.wav"}; if (reversed) std::reverse(in.begin(), in.end());
 	std::string out = "o.clm"; fs::remove(out); Archive::ClmFile::CreateArchive(out, in); observe("clm.create", slurp(out)); Archive::ClmFile c(out); observe("clm.listing", dump(c)); c.ExtractFile(1, "ex.wav"); observe("clm.extract", slurp("ex.wav")); }
 SCENARIO sc_files() { Map m; m.Write("m.map"); observe("map.default.write.file", slurp("m.map")); auto b = BitmapFile::CreateIndexed(4, 9, 2); b.WriteIndexed("b.bmp"); observe("bmp.factory.write.file", slurp("b.bmp")); ArtFile a; a.Write("a.prt"); observe("prt.default.write.file", slurp("a.prt")); }
@@ -131,6 +134,7 @@ int main(int argc, char** argv) {
 	paint(); sc_map_default(); paint(); sc_art_default(); paint(); sc_bmp_factory(); paint(); sc_tileset(); paint(); sc_map_parse(); paint(); sc_map_parse_deep();
 	paint(); sc_save_parse(); paint(); sc_bmp_parse(); paint(); sc_prt_parse(); paint(); sc_files();
 	for (int k = 0; k < 4; ++k) { paint(); sc_vol(k & 1, k & 2); }
+	for (int count : {1, 3, 5, 7}) for (int k = 0; k < 2; ++k) { paint(); sc_vol_odd(count, k); }
 	for (int k = 0; k < 2; ++k) { paint(); sc_clm(k); }
 	return 0;
 }
